@@ -76,7 +76,7 @@ func (m *MockMQ) Close() {
 	m.closed = true
 	m.pending = nil
 	m.subs = map[string]*mqSub{}
-	m.w.log = append(m.w.log, Rec{"e": "mclose"})
+	m.w.logAdd(Rec{"e": "mclose"})
 	m.w.mu.Unlock()
 }
 
@@ -94,11 +94,11 @@ func (m *MockMQ) Subscribe(ns string, cb mq.Response) (mq.Unsubscriber, error) {
 	}
 	sns := w.symText(ns)
 	if len(ns) > maxControlLine-2 {
-		w.log = append(w.log, Rec{"e": "msubfail", "ns": sns, "len": len(ns)})
+		w.logAdd(Rec{"e": "msubfail", "ns": sns, "len": len(ns)})
 		return nil, mq.ErrSubjectTooLong
 	}
 	if m.closed {
-		w.log = append(w.log, Rec{"e": "msubfail", "ns": sns, "len": len(ns)})
+		w.logAdd(Rec{"e": "msubfail", "ns": sns, "len": len(ns)})
 		return nil, errors.New("mq closed")
 	}
 	dup := false
@@ -108,7 +108,7 @@ func (m *MockMQ) Subscribe(ns string, cb mq.Response) (mq.Unsubscriber, error) {
 	s := &mqSub{m: m, ns: ns, cb: cb}
 	m.subs[ns] = s
 	kind, n, c := nsParts(sns)
-	w.log = append(w.log, Rec{"e": "msub", "ns": sns, "kind": kind, "n": n, "c": c, "dup": dup, "bad": !validSubject(ns)})
+	w.logAdd(Rec{"e": "msub", "ns": sns, "kind": kind, "n": n, "c": c, "dup": dup, "bad": !validSubject(ns)})
 	return s, nil
 }
 
@@ -123,7 +123,7 @@ func (s *mqSub) Unsubscribe() error {
 	}
 	sns := w.symText(s.ns)
 	kind, n, c := nsParts(sns)
-	w.log = append(w.log, Rec{"e": "munsub", "ns": sns, "kind": kind, "n": n, "c": c, "known": known})
+	w.logAdd(Rec{"e": "munsub", "ns": sns, "kind": kind, "n": n, "c": c, "known": known})
 	return nil
 }
 
@@ -180,7 +180,7 @@ func (m *MockMQ) SendRequest(subj string, payload []byte, cb mq.Response) {
 	rec := Rec{"e": "mreq", "k": r.k, "t": r.typ, "n": r.sname, "q": r.query, "key": key(r.sname, r.query), "meth": r.meth,
 		"c": r.csym, "tok": tok, "http": p.IsHTTP, "subj": w.symText(subj), "bad": !validSubject(subj),
 		"closed": m.closed, "long": r.tooLong}
-	w.log = append(w.log, rec)
+	w.logAdd(rec)
 	if !m.closed {
 		m.pending = append(m.pending, r)
 	}
